@@ -178,6 +178,7 @@ func (root *Root) resolve(
 		if co, _ := tt.(OutCoercer); co != nil {
 			var err error
 			if result, err = co.CoerceOut(obj); err != nil {
+				result = nil
 				ea = append(ea, resWarn(field.line, field.col, "%s", err))
 			}
 		}
